@@ -17,7 +17,6 @@
 from __future__ import annotations
 
 import abc
-import collections
 from collections.abc import Iterator, Sequence
 from typing import Any, cast, Generic, TYPE_CHECKING, TypeVar
 
@@ -194,15 +193,21 @@ class SimulatorBase(
             return
 
         noisy_moments = self.noise.noisy_moments(circuit, sorted(circuit.all_qubits()))
-        measured: dict[tuple[cirq.Qid, ...], bool] = collections.defaultdict(bool)
+        measured: set[cirq.Qid] = set()
         for moment in noisy_moments:
             for op in ops.flatten_to_ops(moment):
                 try:
                     # Preprocess measurements
-                    if all_measurements_are_terminal and measured[op.qubits]:
+                    if (
+                        all_measurements_are_terminal
+                        and op.qubits
+                        and measured.issuperset(op.qubits)
+                    ):
+                        # Nothing that follows a terminal measurement on measured qubits (noise
+                        # the model adds after it) may act before the state is sampled.
                         continue
                     if isinstance(op.gate, ops.MeasurementGate):
-                        measured[op.qubits] = True
+                        measured.update(op.qubits)
                         if all_measurements_are_terminal:
                             continue
 
